@@ -417,3 +417,99 @@ def rule_wake_db(ctx, R):
                               why[4:], "is read from the connection's current selection (Connection.db_index)" if from_conn else "does not come from the wake-up request"), body.loc(i))
             k += 1
     R.floor("wake_path_db_uses", n)
+
+
+# ---- R-DB-HANDOVER --------------------------------------------------------------------------------
+def rule_db_handover(ctx, R):
+    """a function that takes its database from a field of a struct it is handed (the script-side
+    executor: `cmd.db_override`, with a default of 0 when nobody set it) relies on every caller
+    having put the connection's database there.  At every call site outside tests the struct
+    argument has, dominating the call, a store of `Some(<non-constant>)` into that field (or is
+    built with it, or is the caller's own parameter of the same type, checked at its callers)."""
+    cp = shared.command_path(ctx)
+    dbp_, dbfields, dbup = db_flow(ctx)
+    # (function, param index, field) triples: db operand derived from field of non-self param
+    takers = {}
+    for fn in sorted(cp):
+        b = ctx.prog.bodies.get(fn)
+        if b is None or "::tests::" in fn or b.kind == "Closure":
+            continue
+        for (i, a, why) in db_positions(ctx, b, dbp_, dbfields, dbup):
+            if op_is_const(a):
+                continue
+            P, fields = _origins_with_closures(ctx, b, a)
+            for p in P.params():
+                if p == 1 and (b.locals[1] or "").lstrip("&").startswith(("mut storage::commands::executor::Unified", "storage::commands::executor::Unified", "network::server::Server", "mut network::server::Server")):
+                    continue
+                ty = (b.locals[p] or "").lstrip("&").replace("mut ", "")
+                for f in fields:
+                    if f.startswith(ty + ".") and "Option" in _field_type_hint(ctx, f):
+                        takers.setdefault(fn, set()).add((p, f))
+    n = 0
+    for g, pfs in sorted(takers.items()):
+        for (p, f) in sorted(pfs):
+            for caller in sorted(ctx.cg.callers.get(g, ())):
+                cb = ctx.prog.bodies.get(caller)
+                if cb is None or "::tests::" in caller:
+                    continue
+                for i, t in cb.calls():
+                    if callee(t) != g or len(t["a"]) < p or op_is_const(t["a"][p - 1]) or cb.bbs[i]["cleanup"]:
+                        continue
+                    n += 1
+                    A = op_place(t["a"][p - 1])["l"]
+                    # locals the argument is a move/copy of
+                    als = {A}
+                    P = prov.origins(cb, A, pass_through=re.compile(r"^$"))
+                    own_param = any((cb.locals[q] or "").lstrip("&").replace("mut ", "") == (ctx.prog.bodies[g].locals[p] or "").lstrip("&").replace("mut ", "") for q in P.params())
+                    for x, bb in enumerate(cb.bbs):
+                        for st in bb["s"]:
+                            if st["k"] == "=" and st["r"]["k"] == "use" and not op_is_const(st["r"]["o"]) and st["l"]["l"] in als and not st["l"]["p"]:
+                                als.add(op_place(st["r"]["o"])["l"])
+                    ok = own_param
+                    how = "parameter" if own_param else None
+                    # the other source the callee consults: a connection context installed on the
+                    # receiver by the caller (`executor.clone().with_context(ctx).execute(..)`)
+                    if t["a"] and not op_is_const(t["a"][0]) and prov.operand_origins(cb, t["a"][0]).has_call(r"::with_context$"):
+                        ok = True; how = "connection context installed on the receiver"
+                    for x, bb in enumerate(cb.bbs):
+                        for st in bb["s"]:
+                            if st["k"] != "=":
+                                continue
+                            setf = st["l"]["l"] in als and any(isinstance(e, dict) and e.get("f") == f for e in st["l"]["p"])
+                            built = st["l"]["l"] in als and not st["l"]["p"] and st["r"]["k"] == "agg" and f.rsplit(".", 1)[-1] in (st["r"].get("fs") or [])
+                            if not (setf or built) or not cfg.dominates(cb, x, i):
+                                continue
+                            o = st["r"]["o"][st["r"]["fs"].index(f.rsplit(".", 1)[-1])] if built else (st["r"]["o"] if st["r"]["k"] == "use" else None)
+                            src = None
+                            if setf and st["r"]["k"] == "agg" and st["r"]["a"].endswith("Option::Some"):
+                                src = st["r"]["o"][0]
+                            elif o is not None and not op_is_const(o):
+                                Q = prov.operand_origins(cb, o, deep=True)
+                                somes = [r_ for r_ in Q.roots if r_[0] == "agg" and r_[1].endswith("Option::Some")]
+                                if somes:
+                                    src = {"cp": {"l": -1, "p": []}} if Q.params() or any(r_[0] == "call" for r_ in Q.roots) else None
+                            if src is not None and not op_is_const(src):
+                                ok = True; how = "Some(..) stored before the call"
+                    R.inst(caller, "handover:%s" % g.split("::")[-1], {"caller": caller, "callee": g, "field": f.rsplit(".", 1)[-1], "at": cb.loc(i), "database_put_there": ok, "how": how})
+                    if not ok:
+                        R.finding(caller, "handover:%s:database-not-set" % g.split("::")[-1],
+                                  "%s hands %s a %s whose `%s` it never set: %s then falls back to its default database (0), so the command acts on database 0 whatever the connection selected" % (
+                                      caller.split("::")[-1], g.split("::")[-1], f.split(".")[0].split("::")[-1], f.rsplit(".", 1)[-1], g.split("::")[-1]), cb.loc(i))
+    R.floor("database_handover_call_sites", n)
+
+
+def _field_type_hint(ctx, f):
+    """type of a struct field as far as the facts know it (from any place that projects it)"""
+    def compute():
+        out = {}
+        for b in ctx.prog.bodies.values():
+            for bb in b.bbs:
+                for st in bb["s"]:
+                    if st["k"] == "=" and st["l"]["p"] and isinstance(st["l"]["p"][-1], dict) and "f" in st["l"]["p"][-1] and st["r"]["k"] == "agg":
+                        out.setdefault(st["l"]["p"][-1]["f"], st["r"]["a"])
+                    if st["k"] == "=" and st["r"]["k"] == "use" and not op_is_const(st["r"]["o"]):
+                        pl = op_place(st["r"]["o"])
+                        if pl["p"] and isinstance(pl["p"][-1], dict) and "f" in pl["p"][-1] and not st["l"]["p"]:
+                            out.setdefault(pl["p"][-1]["f"], b.locals[st["l"]["l"]] or "")
+        return out
+    return ctx.memo("field_type_hint", compute).get(f, "")
